@@ -215,6 +215,11 @@ func parse(r []Field, input interface{}, target reflect.Type, parentFullName, pa
 		fields := reflect.VisibleFields(tValue.Type())
 
 		for _, f := range fields {
+			if len(f.Index) > 1 {
+				// promoted field of an embedded struct: VisibleFields also lists the
+				// embedded struct itself, which is parsed recursively below
+				continue
+			}
 			// check if the gnark tag is set
 			tag, ok := f.Tag.Lookup(string(tagKey))
 			if ok && tag == string(TagOptOmit) {
